@@ -54,6 +54,7 @@ def replay(ctx, functionals, prefix, maxpasses=3, sample=None):
     ctx.model_check(t, cf, workers=4, dump_dot=dot, label="one result differentiated several times", timeout=300)
     nodes, _, _ = tlcmod.parse_dot(dot)
     os.remove(dot)
+    ctx.check_proof("BackwardReuse_proofs")      # any number of cotangents and of passes
     for sw, inv in (("OwnCotangent", "EachPassOwnCotangent"), ("CotangentCopied", "CotangentsUntouched"), ("ShortcutByGraph", "GaussNewtonTermKept")):
         t2, cf2 = tlcmod.gen_mc(ctx.work, "BackwardReuse", "MC_BackwardReuse_" + sw, dict(base, **{sw: False}), invariants=invs)
         ctx.expect_violation(t2, cf2, inv=inv, label="deviation " + sw, workers=4, timeout=300)
